@@ -290,13 +290,24 @@ func main() {
 			names = append(names, n)
 		}
 		sort.Strings(names)
+		// Fail closed on vanished *contract* obligations (clause-level: the site sub-ordinal is
+		// ignored, so adding or removing a call does not alarm); safety-site obligations
+		// (index, nil, overflow, ...) legitimately come and go with harmless edits.
+		have := map[string]bool{}
+		for n := range eng.obls {
+			have[clauseKey(n)] = true
+		}
+		reported := map[string]bool{}
 		for _, n := range names {
-			if _, ok := eng.obls[n]; !ok && baseline[n] != "known" {
-				if _, isKnown := knownOpen[n]; isKnown {
-					continue
-				}
-				viols = append(viols, vrec{n, "obligation-vanished (was " + baseline[n] + " on the pinned tree)"})
+			ck := clauseKey(n)
+			if ck == "" || have[ck] || reported[ck] || baseline[n] == "known" {
+				continue
 			}
+			if _, isKnown := knownOpen[n]; isKnown {
+				continue
+			}
+			reported[ck] = true
+			viols = append(viols, vrec{ck, "obligation-vanished (was " + baseline[n] + " on the pinned tree)"})
 		}
 	}
 	replayDir := filepath.Join(*verif, "replays", *prop)
@@ -469,4 +480,27 @@ func truncate(s string, n int) string {
 		return s[:n] + "..."
 	}
 	return s
+}
+
+// clauseKey maps an obligation name to its contract clause ("" for safety-site kinds).
+func clauseKey(name string) string {
+	i := strings.LastIndex(name, "/")
+	if i < 0 {
+		return ""
+	}
+	tail := name[i+1:]
+	kind := tail
+	if j := strings.Index(tail, "#"); j >= 0 {
+		kind = tail[:j]
+	}
+	switch kind {
+	case "index", "slice", "nil", "overflow", "div", "makeslice", "typeassert", "nilmap", "call", "panic", "convert", "vacuity", "frame", "lock", "unlock", "lockleak", "guard":
+		return ""
+	case "at_call", "at_store", "only_calls", "pre", "monitor":
+		// strip the site sub-ordinal: kind#clause.site...
+		if j := strings.Index(tail, "."); j >= 0 {
+			return name[:i+1] + tail[:j]
+		}
+	}
+	return name
 }
